@@ -510,6 +510,39 @@ func uncheckedAsserts(dir string) []string {
 	return out
 }
 
+// packageVars lists the package-level variables of a package (non-test files) as "name = init", sorted:
+// state shared by all sessions would have to live there (or behind a pointer handed to every handler).
+func packageVars(dir string) []string {
+	fset := token.NewFileSet()
+	pkgs, err := parser.ParseDir(fset, dir, func(fi os.FileInfo) bool { return !strings.HasSuffix(fi.Name(), "_test.go") }, 0)
+	if err != nil {
+		return []string{"PARSE-ERROR"}
+	}
+	var out []string
+	for _, pkg := range pkgs {
+		for _, f := range pkg.Files {
+			for _, d := range f.Decls {
+				gd, ok := d.(*ast.GenDecl)
+				if !ok || gd.Tok != token.VAR {
+					continue
+				}
+				for _, sp := range gd.Specs {
+					vs := sp.(*ast.ValueSpec)
+					for i, n := range vs.Names {
+						init := ""
+						if i < len(vs.Values) {
+							init = nodeText(fset, vs.Values[i])
+						}
+						out = append(out, n.Name+" = "+init)
+					}
+				}
+			}
+		}
+	}
+	sort.Strings(out)
+	return out
+}
+
 func main() {
 	if len(os.Args) != 3 {
 		fmt.Fprintln(os.Stderr, "usage: factgen <repo> <out.lean>")
@@ -589,6 +622,8 @@ func main() {
 	for _, pk := range []string{"gateway", "client", "transactions"} {
 		fmt.Fprintf(&sb, "def uncheckedAsserts_%s : List String := %s\n", pk, leanStrList(uncheckedAsserts(filepath.Join(repo, pk))))
 	}
+
+	fmt.Fprintf(&sb, "def packageVars_gateway : List String := %s\n", leanStrList(packageVars(filepath.Join(repo, "gateway"))))
 
 	sb.WriteString("\n-- cmd/: predefined-topics pipeline and plaintext-credentials guard of each tool\n")
 	for _, tool := range []string{"bisquitt", "bisquitt-pub", "bisquitt-sub"} {
